@@ -51,7 +51,7 @@ CLAIMED = {
    technique="Coq-verified validator (string-level evaluation = matrix-level commutator) over exhaustive target enumeration",
    design="6 C05"),
  "C06": dict(
-   text="Proof (existence / impossibility) + exhaustive exploration. Proved for every n: each member of the commutator closure is the nested commutator of a non-empty sequence of generators (C06_nested_exists, from the orbit lemma), so a correct compiler can be total exactly on the closure; for every odd k (3<=k<N) and EVERY N the target X_0X_1 admits no valid sequence (C06_refuted_odd_k, quadratic-form obstruction). Per run: outcome of compile_target for all targets N<=4 (<=5 thorough) and samples above, failing targets matched against the committed exact target sets per (N,k,raise site).",
+   text="Proof (existence / impossibility) + exhaustive exploration. Proved for every n: each member of the commutator closure is the nested commutator of a non-empty sequence of generators (C06_nested_exists, from the orbit lemma), so a correct compiler can be total exactly on the closure; for every even k and every N every non-identity target has a sequence accepted by the validator (C06_compilable_even_k, from C07_even_k); for every odd k (3<=k<N) and EVERY N the target X_0X_1 admits no valid sequence (C06_refuted_odd_k, quadratic-form obstruction). Per run: outcome of compile_target for all targets N<=4 (<=5 thorough) and samples above, failing targets matched against the committed exact target sets per (N,k,raise site).",
    note="Termination is observed by a per-target watchdog, not proved (runtime behaviour the model cannot exhibit): partial. Known findings: 17 (N,k,site) entries with exact target sets + 4 site-level entries for N>=6. No axioms.",
    technique="Coq existence/impossibility theorems + exhaustive outcome enumeration against a recorded known-finding table",
    design="6 C06"),
